@@ -4,6 +4,7 @@
 import SfProofs.RdwrReopen
 import SfProofs.RdwrAbs
 import SfProofs.HandleContract
+import SfProofs.Codec
 namespace Sf
 
 theorem RwInv.nframes {h : H} {s : Store} (i : RwInv h s) : ((absOf h s).frames.length : Int) = h.frames := by
@@ -419,5 +420,93 @@ theorem written_file_opens_rdwr (ix fmt : Nat) (ch sr : Int) (h0 : H) (s0 : Stor
       (by rw [f4]; omega) (by rw [f3]; omega) (sessData c ops) (sessFrames ch.toNat ops) hdl hg _
       (by rw [← hL]; exact hev) ix' pos fmt ch sr (by rw [f1]; simp)
     exact ⟨c, h', s', hcfg, ho', hfin h' s' r⟩
+
+/-! ## the values view -/
+
+/-- the abstract file as the caller of type `ty` sees it: every stored frame decoded to its `ch` items -/
+def absValues (h : H) (s : Store) (ty : Ty) : List (List Int) :=
+  (absOf h s).frames.map (h.enc.decodeAll h.conv ty)
+
+theorem decodeAll_flatten (e : Enc) (c : Conv) (ty : Ty) (hn : 0 < e.nbytes) (chn : Nat) :
+    ∀ fs : List (List Byte), (∀ g ∈ fs, g.length = chn * e.nbytes) →
+      e.decodeAll c ty fs.flatten = (fs.map (e.decodeAll c ty)).flatten := by
+  intro fs
+  induction fs with
+  | nil => intro _; simp [decodeAll_nil]
+  | cons g fs ih =>
+    intro hl
+    rw [List.flatten_cons, Enc.decodeAll_append e c ty hn chn g _ (hl g (by simp)), List.map_cons, List.flatten_cons,
+      ih (fun g' hg => hl g' (by simp [hg]))]
+
+/-- the frames a whole-frame buffer encodes to are the encodings of its `ch`-item groups -/
+theorem writtenFrames_eq (h : H) (ty : Ty) (data : List Int) (hch : 0 < h.ch) (hnb : 0 < h.enc.nbytes)
+    (hmod : data.length % h.ch = 0) :
+    writtenFrames h ty data = (groups h.ch data).map (h.enc.encodeAll h.conv ty) := by
+  have hdl : data.length = data.length / h.ch * h.ch := by
+    have := Nat.div_add_mod data.length h.ch
+    rw [hmod, Nat.mul_comm] at this; omega
+  have hj : (groups h.ch data).flatten = data := groups_join _ hch _ _ hdl
+  have hgl : ∀ g ∈ groups h.ch data, g.length = h.ch := groups_mem_length _ hch _ data rfl
+  unfold writtenFrames
+  conv => lhs; rw [← hj]
+  rw [Enc.encodeAll_flatten]
+  apply groups_flatten _ (Nat.mul_pos hnb hch)
+  intro x hx
+  obtain ⟨g, hg, rfl⟩ := List.mem_map.mp hx
+  rw [Enc.encodeAll_length, hgl g hg]; exact Nat.mul_comm _ _
+
+/-- the values view after a write of lossless samples at write position `p`: frames `p … p+k` of the file ARE the
+    caller's frames (the buffer cut into groups of `ch` items), for whatever conversion settings they are read with -/
+theorem write_puts_values_core (h : H) (s : Store) (inv : RwInv h s) (ty : Ty) (fc : Bool) (data : List Int)
+    (hmod : data.length % h.ch = 0) (hpos : 0 < data.length)
+    (hrt : ∀ (c' : Conv) (g : List Int), g ∈ groups h.ch data → h.enc.decodeAll c' ty (h.enc.encodeAll h.conv ty g) = g) :
+    let r := stepAny h s ((ROp.write ty fc data).toOp h)
+    ((absValues r.1 r.2.1 ty).drop (absOf h s).wpos).take (data.length / h.ch) = groups h.ch data := by
+  intro r
+  have g := inv.gives
+  obtain ⟨hne, wl, a, _⟩ := write_effect h s inv ty fc data hmod hpos
+  have c := SameCfg.stepAny h s ((ROp.write ty fc data).toOp h)
+  unfold absValues
+  rw [← List.map_drop, ← List.map_take, a, ← wl, AbsFile.write_read_back _ _ _ hne,
+    writtenFrames_eq h ty data g.2.1 g.2.2.1 hmod, List.map_map, c.enc]
+  calc (groups h.ch data).map (h.enc.decodeAll r.1.conv ty ∘ h.enc.encodeAll h.conv ty)
+      = (groups h.ch data).map id := List.map_congr_left (fun x hx => hrt _ x hx)
+    _ = groups h.ch data := by simp
+
+/-- a read, in the values view: the buffer starts with the frames `rpos … rpos+k` of the file as the caller sees them -/
+theorem read_values_core (h : H) (s : Store) (inv : RwInv h s) (ty : Ty) (fc : Bool) (k : Nat) (hk : 0 < k) :
+    let r := stepAny h s ((ROp.read ty fc k).toOp h)
+    let got := ((absValues h s ty).drop (absOf h s).rpos).take k
+    r.2.2.ret = callCount h fc got.length ∧ r.2.2.err = 0 ∧
+    r.2.2.data = got.flatten ++ List.replicate ((k - got.length) * h.ch)
+      (if (absOf h s).rpos < (absOf h s).frames.length then pattern ty else 0) := by
+  intro r got
+  have g := inv.gives
+  obtain ⟨o, _, _⟩ := rdwr_step h s (.read ty fc k) inv trivial
+  simp only [ROp.outOk] at o
+  obtain ⟨o1, o2⟩ := o
+  obtain ⟨o2, o3⟩ := o2 hk
+  have hgot : got = (((absOf h s).read k).1).map (h.enc.decodeAll h.conv ty) := by
+    show ((absValues h s ty).drop _).take k = _
+    unfold absValues AbsFile.read
+    rw [← List.map_drop, ← List.map_take]
+  have hlen : got.length = ((absOf h s).read k).1.length := by rw [hgot, List.length_map]
+  have hfl : h.enc.decodeAll h.conv ty ((absOf h s).read k).1.flatten = got.flatten := by
+    rw [hgot]
+    apply decodeAll_flatten _ _ _ g.2.2.1 h.ch
+    intro x hx
+    have : x ∈ (absOf h s).frames := List.mem_of_mem_drop (List.mem_of_mem_take hx)
+    rw [inv.frame_len x this]; exact Nat.mul_comm _ _
+  exact ⟨by rw [o1, hlen], o2, by rw [o3, hfl, hlen]⟩
+
+theorem groups_mem_sub {α} (n : Nat) (hn : 0 < n) (l : List α) (hl : l.length % n = 0) :
+    ∀ g ∈ groups n l, ∀ v ∈ g, v ∈ l := by
+  intro g hg v hv
+  have hdl : l.length = l.length / n * n := by
+    have := Nat.div_add_mod l.length n
+    rw [hl, Nat.mul_comm] at this; omega
+  have hj : (groups n l).flatten = l := groups_join _ hn _ _ hdl
+  rw [← hj]
+  exact List.mem_flatten.mpr ⟨g, hg, hv⟩
 
 end Sf
